@@ -451,30 +451,56 @@ def w_rec(rep, ex: Explorer, be: Backend):
         if isinstance(rv, PredV):
             # the answer handed back as a condition instead of being branched on (`return not ties`, `return all(... for
             # t in ties)`): read as the two answers it stands for
-            pp, neg = rv.p, False
-            while pp[0] == "not":
-                pp, neg = pp[1], not neg
-            ties_d = ("setop", "&")
+            # evaluated on every small situation: 0..2 ties, every combination of answers of the recursion below them
             k0 = _k_is_zero(K0) if K0 is not None else None
             n_rows += 1  # (the path stands for two rows)
-            if pp[0] == "empty" and isinstance(pp[1], tuple) and pp[1][:2] == ties_d and set(pp[1][2:]) == {V, Fm} and E is None:
-                # True exactly when there is no tie / exactly when there is one
-                recs0 = [ev for ev, Q in iter_events(p.events) if ev.kind == "recurse"]
-                if k0 is True:
-                    rep.check(not neg and not recs0, "W.decision", site, "tie at layer 0", "a tie at the lowest layer ⇒ False, no tie ⇒ True (no recursion below layer 0)",
-                              extracted=f"the answer is {'a tie exists' if neg else 'no tie exists'}, {len(recs0)} recursive call(s)", required="no tie exists, none", function=site)
+
+            def ev_ret(q, n_ties, recs, cur=None):
+                k_ = q[0]
+                if k_ == "const":
+                    return q[1]
+                if k_ == "not":
+                    return not ev_ret(q[1], n_ties, recs, cur)
+                if k_ in ("and", "or"):
+                    vals = [ev_ret(x, n_ties, recs, cur) for x in q[1]]
+                    return all(vals) if k_ == "and" else any(vals)
+                if k_ == "empty" and isinstance(q[1], tuple) and q[1][:2] == ("setop", "&") and set(q[1][2:]) == {V, Fm}:
+                    return n_ties == 0
+                if k_ in ("forall", "exists") and q[2][0] == "members" and isinstance(q[2][1], tuple) and q[2][1][:2] == ("setop", "&") and set(q[2][1][2:]) == {V, Fm} and q[3] == PTRUE:
+                    vals = [ev_ret(q[4], n_ties, recs, i) for i in range(n_ties)]
+                    return all(vals) if k_ == "forall" else any(vals)
+                if k_ == "truthy" and isinstance(q[1], tuple) and q[1][:1] == ("rec",) and cur is not None:
+                    return recs[cur]
+                raise KeyError(q)
+
+            recs_in_loop = [ev for ev, Q in iter_events(p.events) if ev.kind == "recurse"]
+            bad = None
+            try:
+                for kz in ([k0] if k0 is not None else [True, False]):
+                    for n_ties in (0, 1, 2):
+                        if (E is True and n_ties > 0) or (E is False and n_ties == 0):
+                            continue
+                        for recs in product((True, False), repeat=n_ties):
+                            want = (n_ties == 0) if kz else all(recs)
+                            got = ev_ret(rv.p, n_ties, recs)
+                            if got != want and bad is None:
+                                bad = (kz, n_ties, recs, got, want)
+            except KeyError:
+                raise AnalysisError(f"{site}: the answer is a condition this rule cannot read: {show_pred(rv.p)[:200]}")
+            if bad is not None:
+                kz, n_ties, recs, got, want = bad
+                if kz:
+                    rep.violation("W.decision", site, "tie at layer 0", "a tie at the lowest layer ⇒ False, no tie ⇒ True (no recursion below layer 0)",
+                                  extracted=f"{got} with {n_ties} tie(s) at layer 0 (answer: {show_pred(rv.p)[:120]})", required=str(want), function=site)
                 else:
-                    rep.violation("W.decision", site, "every tie", "above the lowest layer every tie is handed to the recursion", extracted="the answer is whether a tie exists", required="a recursive answer per tie", function=site)
+                    rep.violation("W.decision", site, "failing tie" if want is False else "all ties pass (k>0)", "above the lowest layer the answer is True exactly when the continuation of every tie holds",
+                                  extracted=f"{got} with {n_ties} tie(s) whose continuations answer {list(recs)} (answer: {show_pred(rv.p)[:120]})", required=str(want), function=site)
                 continue
-            if pp[0] == "forall" and pp[2][0] == "members" and isinstance(pp[2][1], tuple) and pp[2][1][:2] == ties_d and set(pp[2][1][2:]) == {V, Fm} and pp[3] == PTRUE \
-                    and pp[4][0] == "truthy" and isinstance(pp[4][1], tuple) and pp[4][1][:1] == ("rec",) and not neg and tie:
-                if E is True:
-                    continue  # no tie on this path: the condition ranges over nothing and the answer is True
-                if k0 is not False:
-                    rep.violation("W.decision", site, "tie at layer 0", "the recursion below a tie is not guarded against layer 0", extracted="no test of k" if K0 is None else "k may be 0", required="k=0 ⇒ False", function=site)
+            if k0 is not False and E is not True and recs_in_loop:
+                rep.violation("W.decision", site, "tie at layer 0", "the recursion below a tie is not guarded against layer 0", extracted="no test of k" if K0 is None else "k may be 0", required="k=0 ⇒ False", function=site)
+            if tie and k0 is not True:
                 _check_tie_recursion(rep, be, site, tie[-1], p, lex=False)
-                continue
-            raise AnalysisError(f"{site}: the answer is a condition this rule cannot read: {show_pred(rv.p)[:200]}")
+            continue
         if E is True:
             if X not in (None, "complete"):
                 continue  # infeasible: the tie loop cannot be left at a member of a family just found empty
